@@ -45,7 +45,7 @@ fn main() {
     let build = arg_value(&args, "--build").unwrap_or_else(|| "fast".into());
     let known_path = arg_value(&args, "--known").map(PathBuf::from).unwrap_or_else(|| verif_root.join("known_findings.json"));
     let known_open = load_known(&known_path, &id);
-    let ctx = Ctx { id: id.clone(), tier, seed, threads, known_open, build: build.clone() };
+    let ctx = Ctx { id: id.clone(), tier, seed, threads, known_open, build: build.clone(), light: false };
 
     let Some(prop) = props::lookup(&id) else {
         eprintln!("unknown property {id}");
